@@ -363,6 +363,16 @@ def run(ctx):
                         x.start()
                     for x in ths:
                         x.join(90)
+                    # a client that ran into its own 30 s timeout while the machine was busy (listen backlog of 5, up to 96 connects
+                    # at once, other jobs on the cores) is asked again, alone: a server that answers now was slow, not dead
+                    for i in range(N):
+                        if errs[i] is not None and "imed out" in errs[i]:
+                            try:
+                                results[i] = mask(ask(port, forms[picks[i]][0], forms[picks[i]][1], cctx, timeout=60))
+                                errs[i] = None
+                                res.count(f"{stype}:slow-under-load-answered-on-retry")
+                            except Exception as e:  # noqa
+                                errs[i] = repr(e)
                     allres.append((N, picks, results, errs))
                 # sequential baseline afterwards (warm), which is what "alone" means for a read-only site
                 seq = [mask(ask(port, f[0], f[1], cctx)) for f in forms]
